@@ -1,7 +1,6 @@
 #ifndef OPMIN_META_H
 #define OPMIN_META_H
 
-#ifndef FASTOR_DONT_PERFORM_OP_MIN
 
 #include "tensor_meta.h"
 #include "einsum_meta.h"
@@ -614,7 +613,7 @@ struct einsum_helper<Ind0,Ind1,Ind2,Ind3,Ind4,Ind5,Tensor0,Tensor1,Tensor2,Tenso
 } // end of namespace Fastor
 
 
-#endif // FASTOR_DONT_PERFORM_OP_MIN
+
 
 
 #endif // OPMIN_META_H
